@@ -229,86 +229,174 @@ def _column_reader(ck: Checker, prog: Program, fname: str, roles_from_patterns: 
     return f, q, lp, stores
 
 
-def _saf(ck: Checker, prog: Program):
-    f, q, lp, stores = _column_reader(ck, prog, "_read_saf", True)
-    ch = {}
-    for st in f.node.body:
-        if isinstance(st, ast.Assign) and isinstance(st.targets[0], ast.Name) and st.targets[0].id.endswith("_ch"):
-            ex = _header_field(st)
-            pat = _pattern_text(prog, ex) if ex else None
-            ch[st.targets[0].id] = (ex, pat)
-    want = {"v_ch": "V", "n_ch": "N", "e_ch": "E"}
-    for var, letter in want.items():
-        ex, pat = ch.get(var, (None, None))
-        if pat is not None and pat.rstrip().endswith(f"_ID = {letter}") and pat.count("(") == 1:
-            ck.ok("C07.R1", q, f"{var} <- {ex} ('{pat}')", detail=f"index of the channel labelled {letter}")
-        else:
-            ck.violation("C07.R1", q, var, f"`{var}` is read with pattern {pat!r}; it must be the index of the channel whose ID is {letter}", loc=f.loc())
-    col_want = {0: "v_ch", 1: "n_ch", 2: "e_ch"}
-    chan = None
-    for st in lp.body:
-        if isinstance(st, ast.Assign) and unparse(st.value) == f"{unparse(lp.target)}.groups()":
-            chan = unparse(st.targets[0])
-    good = chan is not None and all(k in stores and unparse(stores[k]) == f"float({chan}[{v}])" for k, v in col_want.items()) and len(stores) == 3
-    if good:
-        ck.ok("C07.R1", q, "columns 0,1,2 <- channels[v_ch], channels[n_ch], channels[e_ch]")
-    else:
-        ck.violation("C07.R1", q, "column filling", f"data columns are filled from { {k: unparse(v) for k, v in stores.items()} }; expected (V, N, E) by channel index",
+def _regex_of(v) -> Optional[str]:
+    """Name of the compiled pattern whose first group a header value is taken from: conv(search(<re>, text).groups()[0])."""
+    for a in sp.preorder_traversal(v):
+        if getattr(getattr(a, "func", None), "__name__", "") == "search" and a.args and a.args[0].is_Symbol and a.args[0].name.endswith("_exec"):
+            return a.args[0].name
+    return None
+
+
+def _column_provenance(ck: Checker, prog: Program, fname: str, roles, fs_exec: str, npts_exec: str, scalings=()):
+    """Column reader as a provenance table: file field -> data column -> constructor slot, plus scalings, time step and the
+    row counter.  `roles(source term)` names the component (V/N/E) of what is stored into a column."""
+    from ..pathtable import PathTable, literals
+    f = prog.func(f"data_wrangler.{fname}")
+    q = f.qualname
+    pt = PathTable(prog, f.module, unroll=True, structured=True, opaque=("_check_npts",))
+    leaves = pt.leaves(f.node.body)
+    rets = [l for l in leaves if l.exit == "return"]
+    if not rets:
+        raise AnalysisError(f"{q}: no returning path")
+    loops = [st for st in f.node.body if isinstance(st, ast.For) and any(call_name(c) == "finditer" for c in calls_in(st.iter))]
+    if len(loops) != 1:
+        raise AnalysisError(f"{q}: row loop not found")
+    lp = loops[0]
+    l = rets[0]
+    if id(lp) not in l.snaps:
+        raise AnalysisError(f"{q}: a returning path skips the row loop")
+    env0 = dict(l.snaps[id(lp)][0])
+    GROUP = sp.Symbol("<row match>", real=True)
+    if not isinstance(lp.target, ast.Name):
+        raise AnalysisError(f"{q}: row loop target")
+    # the running row counter: the name used as first index of the column stores
+    col_stores = [st for st in lp.body if isinstance(st, ast.Assign) and isinstance(st.targets[0], ast.Subscript) and isinstance(st.targets[0].slice, ast.Tuple)
+                  and len(st.targets[0].slice.elts) == 2 and isinstance(st.targets[0].value, ast.Name)]
+    if len(col_stores) != 3:
+        raise AnalysisError(f"{q}: expected three column stores per row, found {len(col_stores)}")
+    arr = col_stores[0].targets[0].value.id
+    rowvar = unparse(col_stores[0].targets[0].slice.elts[0])
+    ROW = sp.Symbol("<row>", integer=True)
+    env = dict(env0)
+    env[lp.target.id] = GROUP
+    env[rowvar] = ROW
+    sub = PathTable(prog, f.module, env=env, unroll=True, structured=True).leaves(lp.body)
+    if len(sub) != 1:
+        raise AnalysisError(f"{q}: branching row loop")
+    cols = {}
+    for e in sub[0].events:
+        if e[0] == "store" and id(e[3]) in sub[0].store_at:
+            base, ix = sub[0].store_at[id(e[3])]
+            if getattr(ix, "func", None) == sp.Function("idx") and ix.args[0] == ROW and ix.args[1].is_Integer:
+                cols[int(ix.args[1])] = e[2]
+    col_role = {j: roles(v, GROUP) for j, v in cols.items()}
+    if sorted(col_role.values(), key=str) != ["E", "N", "V"] or sorted(cols) != [0, 1, 2]:
+        ck.violation("C07.R1", q, "column filling", f"data columns are filled with components {col_role} (sources { {j: str(v)[:80] for j, v in cols.items()} }); each of V, N, E must fill exactly one column",
                      loc=f.loc(lp))
-    _unpack_and_build(ck, f, q, ["vt", "ns", "ew"])
-    _counter_and_check(ck, f, q, lp, "saf_npts_exec")
-    # time step from the sampling frequency
-    d = {unparse(st.targets[0]): st for st in f.node.body if isinstance(st, ast.Assign) and isinstance(st.targets[0], ast.Name)}
-    if "dt" in d and _header_field(d["dt"]) == "saf_fs_exec" and unparse(d["dt"].value).startswith("1 / float("):
-        ck.ok("C07.R1", q, "dt = 1 / SAMP_FREQ")
+        return f, q, lp
+    ck.ok("C07.R1", q, f"data columns {dict(sorted(col_role.items()))} by the file's own channel description")
+    # constructor slots, scalings and time step - per returning path (the text may come from a file or a StringIO)
+    bad, bad_scale, bad_dt = [], [], []
+    ARR = sp.Symbol(arr, real=True)
+    gi = sp.Function("getitem")
+    for l in rets:
+        v = l.value
+        if getattr(getattr(v, "func", None), "__name__", "") != "SeismicRecording3C" or len(v.args) < 3:
+            bad.append(f"returns {str(v)[:80]}")
+            continue
+        envl = l.snaps[id(lp)][0] if id(lp) in l.snaps else {}
+        want_arr = ARR
+        for ex in scalings:
+            fld = None
+            for nm, val in envl.items():
+                if hasattr(val, "args") and _regex_of(val) == ex:
+                    fld = val
+            if fld is None:
+                bad_scale.append(f"the header field read by {ex} is not used")
+                continue
+            want_arr = want_arr / fld
+        for slot, want in zip(v.args[:3], ("N", "E", "V")):
+            if getattr(getattr(slot, "func", None), "__name__", "") != "TimeSeries" or len(slot.args) < 2:
+                bad.append(f"slot {want}: {str(slot)[:60]}")
+                continue
+            data, dt = slot.args[0], slot.args[1]
+            j = a_ = None
+            if getattr(data, "func", None) == gi and getattr(getattr(data.args[0], "func", None), "__name__", "") == "attr_T" and data.args[1].is_Integer:
+                j, a_ = int(data.args[1]), data.args[0].args[0]
+            elif getattr(data, "func", None) == gi and getattr(data.args[1], "func", None) == sp.Function("idx") and data.args[1].args[1].is_Integer:
+                j, a_ = int(data.args[1].args[1]), data.args[0]
+            if j is None or col_role.get(j) != want:
+                bad.append(f"the {want} slot of the recording receives column {j} ({col_role.get(j)})")
+            if a_ is not None and not equal(a_, want_arr):
+                bad_scale.append(f"the columns handed on are those of {str(a_)[:100]}; expected {str(want_arr)[:100]}")
+            flds = [a for a in sp.preorder_traversal(dt) if getattr(a, "func", None) == gi]
+            if not (_regex_of(dt) == fs_exec and flds and equal(dt, 1 / flds[0])):
+                bad_dt.append(f"the time step is {str(dt)[:80]}")
+    if not bad:
+        ck.ok("C07.R1", q, "constructor slots (ns, ew, vt) receive the N, E, V columns, each as TimeSeries(column, dt)")
     else:
-        ck.violation("C07.R1", q, "time step", "the time step is not 1/SAMP_FREQ from the header", loc=f.loc())
-    # NORTH_ROT handling
-    blk = [st for st in f.node.body if isinstance(st, ast.If) and "degrees_from_north" in unparse(st.test)]
-    okn = False
-    if len(blk) == 1:
-        txt = unparse(blk[0])
-        okn = "float(saf_north_rot_exec.search(text).groups()[0])" in txt and "degrees_from_north = north_rot" in txt \
-            and "degrees_from_north = north_rot + 90.0" in txt and "if n_ch == 1" in txt and "elif e_ch == 1" in txt
-    if okn:
-        ck.ok("C07.R1", q, "NORTH_ROT applied (+90 when the east channel comes first)")
+        ck.violation("C07.R1", q, "column unpack", "; ".join(bad[:3]), loc=f.loc())
+    if not bad_scale:
+        if scalings:
+            ck.ok("C07.R1", q, "samples divided by the header's gain and conversion factor (whole array, after the rows are read)")
     else:
-        ck.violation("C07.R1", q, "NORTH_ROT", "the orientation metadata NORTH_ROT is not applied as documented", loc=f.loc())
+        ck.violation("C07.R1", q, "header scaling", "; ".join(sorted(set(bad_scale))[:2]), loc=f.loc())
+    if not bad_dt:
+        ck.ok("C07.R1", q, "dt = 1 / sample rate of the header")
+    else:
+        ck.violation("C07.R1", q, "time step", f"{sorted(set(bad_dt))[0]}, not 1/(sample rate) from the header field {fs_exec}", loc=f.loc())
+    _counter_and_check(ck, f, q, lp, npts_exec, rowvar)
+    return f, q, lp
+
+
+def _saf(ck: Checker, prog: Program):
+    def roles(v, GROUP):
+        ex = _regex_of(v)
+        pat = _pattern_text(prog, ex) if ex else None
+        if pat is None or pat.count("(") != 1:
+            return None
+        for letter in ("V", "N", "E"):
+            if pat.rstrip().endswith(f"_ID = {letter}"):
+                return letter
+        return None
+    f, q, lp = _column_provenance(ck, prog, "_read_saf", roles, "saf_fs_exec", "saf_npts_exec")
+    # NORTH_ROT handling: decision table of the orientation handed to the constructor
+    from ..pathtable import PathTable, literals, same_rel, negate
+    pt = PathTable(prog, f.module, unroll=True, structured=True, opaque=("_check_npts",))
+    rets = [l for l in pt.leaves(f.node.body) if l.exit == "return"]
+    R = lambda n: sp.Symbol(n, real=True)   # noqa: E731
+    DFN, NONE = R("degrees_from_north"), sp.Symbol("None")
+    seen = {}
+    for l in rets:
+        v = l.value
+        if getattr(getattr(v, "func", None), "__name__", "") != "SeismicRecording3C" or len(v.args) < 4:
+            continue
+        o = v.args[3]
+        lits = literals(l)
+        given = any(same_rel(x, sp.Ne(DFN, NONE, evaluate=False)) for x in lits)
+        raised = any("raised(" in str(x) for x in lits)
+        ex = _regex_of(o)
+        if given:
+            seen["given"] = (o == DFN)
+        elif raised:
+            seen["missing"] = (o == 0)
+        elif ex == "saf_north_rot_exec":
+            rot = [a for a in sp.preorder_traversal(o) if getattr(getattr(a, "func", None), "__name__", "") == "getitem" and _regex_of(a) == "saf_north_rot_exec"]
+            d = sp.simplify(o - rot[0]) if rot else None
+            chan = [x for x in lits if isinstance(x, sp.Eq) and x.rhs == 1 or isinstance(x, sp.Eq) and x.lhs == 1]
+            which = {_regex_of(x) for x in chan}
+            if d == 0:
+                seen["north first"] = which == {"saf_n_ch_exec"}
+            elif d == 90:
+                seen["east first"] = "saf_e_ch_exec" in which
+            else:
+                seen[f"offset {d}"] = False
+        else:
+            seen[f"orientation {str(o)[:40]}"] = False
+    need = {"given", "missing", "north first", "east first"}
+    if need <= set(seen) and all(seen.values()):
+        ck.ok("C07.R1", q, "NORTH_ROT applied (+90 when the east channel comes first)", detail="explicit orientation wins; missing keyword -> 0")
+    else:
+        ck.violation("C07.R1", q, "NORTH_ROT", f"the orientation metadata NORTH_ROT is not applied as documented (cases {seen})", loc=f.loc())
 
 
 def _minishark(ck: Checker, prog: Program):
-    f, q, lp, stores = _column_reader(ck, prog, "_read_minishark", False)
-    names = None
-    for st in lp.body:
-        if isinstance(st, ast.Assign) and unparse(st.value) == f"{unparse(lp.target)}.groups()" and isinstance(st.targets[0], ast.Tuple):
-            names = [unparse(e) for e in st.targets[0].elts]
-    good = names == ["vt", "ns", "ew"] and {k: unparse(v) for k, v in stores.items()} == {0: "float(vt)", 1: "float(ns)", 2: "float(ew)"}
-    if good:
-        ck.ok("C07.R1", q, "file columns (V, N, E) -> data columns 0,1,2")
-    else:
-        ck.violation("C07.R1", q, "column filling", f"row groups are unpacked as {names} and stored as { {k: unparse(v) for k, v in stores.items()} }; the format's column order is V, N, E",
-                     loc=f.loc(lp))
-    _unpack_and_build(ck, f, q, ["vt", "ns", "ew"])
-    _counter_and_check(ck, f, q, lp, "mshark_npts_exec")
-    # gain and conversion factor divided out of the data
-    hdr = {}
-    for st in f.node.body:
-        if isinstance(st, ast.Assign) and isinstance(st.targets[0], ast.Name):
-            ex = _header_field(st)
-            if ex:
-                hdr[st.targets[0].id] = ex
-    for var, ex in (("gain", "mshark_gain_exec"), ("conversion", "mshark_conversion_exec")):
-        div = [st for st in f.node.body if isinstance(st, ast.AugAssign) and isinstance(st.op, ast.Div) and unparse(st.target) == "data" and unparse(st.value) == var]
-        unp = [st for st in f.node.body if isinstance(st, ast.Assign) and unparse(st.value) == "data.T"]
-        if hdr.get(var) == ex and len(div) == 1 and unp and div[0].lineno < unp[0].lineno and div[0].lineno > lp.end_lineno:
-            ck.ok("C07.R1", q, f"data /= {var} ({ex})")
-        else:
-            ck.violation("C07.R1", q, f"header scaling: {var}", f"the header's {var} is not divided out of the samples (once, after reading the rows)", loc=f.loc())
-    d = {unparse(st.targets[0]): st for st in f.node.body if isinstance(st, ast.Assign) and isinstance(st.targets[0], ast.Name)}
-    if "dt" in d and _header_field(d["dt"]) == "mshark_fs_exec" and unparse(d["dt"].value).startswith("1 / float("):
-        ck.ok("C07.R1", q, "dt = 1 / sample rate")
-    else:
-        ck.violation("C07.R1", q, "time step", "the time step is not 1/(sample rate) from the header", loc=f.loc())
+    def roles(v, GROUP):
+        gi = sp.Function("getitem")
+        if getattr(v, "func", None) == gi and v.args[0] == sp.Function("groups")(GROUP) and v.args[1].is_Integer:
+            return {0: "V", 1: "N", 2: "E"}.get(int(v.args[1]))
+        return None
+    _column_provenance(ck, prog, "_read_minishark", roles, "mshark_fs_exec", "mshark_npts_exec", scalings=("mshark_gain_exec", "mshark_conversion_exec"))
 
 
 def _unpack_and_build(ck: Checker, f, q: str, order: List[str]):
@@ -326,33 +414,38 @@ def _unpack_and_build(ck: Checker, f, q: str, order: List[str]):
                      loc=f.loc())
 
 
-def _counter_and_check(ck: Checker, f, q: str, lp: ast.For, npts_exec: str):
+def _counter_and_check(ck: Checker, f, q: str, lp: ast.For, npts_exec: str, idxname: str = "idx"):
     """`idx` counts the parsed rows (0 before the loop, +1 once per row) and _check_npts(header, idx) follows the loop."""
     cfg = cfg_of(f)
 
     def classify(n):
         st = cfg.ast_of(n)
-        if cfg.kind(n) == "stmt" and isinstance(st, ast.AugAssign) and unparse(st.target) == "idx":
+        if cfg.kind(n) == "stmt" and isinstance(st, ast.AugAssign) and unparse(st.target) == idxname:
             return 0 if (isinstance(st.op, ast.Add) and unparse(st.value) == "1") else 1
-        if cfg.kind(n) == "stmt" and isinstance(st, ast.Assign) and unparse(st.targets[0]) == "idx":
+        if cfg.kind(n) == "stmt" and isinstance(st, ast.Assign) and unparse(st.targets[0]) == idxname:
             return 1
         return None
     res = events_per_iteration(cfg, lp, classify, 2)
-    init = [st for st in own_nodes(f.node) if isinstance(st, ast.Assign) and unparse(st.targets[0]) == "idx" and st.lineno < lp.lineno]
+    init = [st for st in own_nodes(f.node) if isinstance(st, ast.Assign) and unparse(st.targets[0]) == idxname and st.lineno < lp.lineno]
     init_ok = init and unparse(init[-1].value) == "0" and (parent_of(init[-1]) is parent_of(lp))
     cs = [c for c in calls_in(parent_of(lp), "_check_npts") if c.lineno > lp.end_lineno]
     hdr = None
+    hname = unparse(cs[0].args[0]) if len(cs) == 1 and cs[0].args else None
     for st in own_nodes(f.node):
-        if isinstance(st, ast.Assign) and unparse(st.targets[0]) == "npts_header":
+        if isinstance(st, ast.Assign) and unparse(st.targets[0]) == hname:
             hdr = _header_field(st)
-    okc = len(cs) == 1 and [unparse(a) for a in cs[0].args] == ["npts_header", "idx"] and hdr == npts_exec
+    if len(cs) == 1 and cs[0].args and hdr is None:
+        for c2 in calls_in(cs[0].args[0], "search"):
+            if isinstance(c2.func, ast.Attribute) and isinstance(c2.func.value, ast.Name):
+                hdr = c2.func.value.id
+    okc = len(cs) == 1 and len(cs[0].args) == 2 and unparse(cs[0].args[1]) == idxname and hdr == npts_exec
     if res == {(1, 0)} and init_ok and okc:
         ck.ok("C07.R2", q, "_check_npts(npts_header, idx) with idx = number of rows parsed", detail=f"header count from {hdr}")
     else:
         ck.violation("C07.R2", q, "sample-count cross check",
                      f"the header's sample count is not compared with the reader's own row counter after the rows are read "
                      f"(counter per row: {sorted(res)}, starts at 0: {bool(init_ok)}, call: {[unparse(a) for c in cs for a in c.args]})", loc=f.loc(lp))
-    alloc = [st for st in own_nodes(f.node) if isinstance(st, ast.Assign) and unparse(st.targets[0]) in ("data", "amplitude") and "npts_header" in unparse(st.value)]
+    alloc = [st for st in own_nodes(f.node) if isinstance(st, ast.Assign) and hname is not None and hname in unparse(st.value) and isinstance(st.value, ast.Call) and call_name(st.value) in ("empty", "zeros")]
     if alloc:
         ck.ok("C07.R2", q, "array sized from the header count", nontrivial=False)
 
